@@ -67,7 +67,7 @@ WordStarts(f, b) == {p \in 0..(Len(b) - 1) : IsStart(f, b, p)}
 RECURSIVE SOL(_, _), EOL(_, _)
 SOL(b, d) == IF d = 0 THEN 0 ELSE IF b[d].c = "newline" THEN d ELSE SOL(b, d - 1)          \* dot after the last newline left of d
 EOL(b, d) == IF d = Len(b) THEN d ELSE IF b[d + 1].c = "newline" THEN d ELSE EOL(b, d + 1) \* dot before the first newline right of d
-Any(b) == 0..Len(b)
+AnyDot(b) == 0..Len(b)
 
 NoWordLeft(f, b, d)  == PrevStart(f, b, d - 1) = -1
 NoWordRight(f, b, d) == NextStart(f, b, d + 1) = -1
@@ -95,10 +95,10 @@ Targets(m, b, d) ==
                       ELSE Closest(b, eol + 1, EOL(b, eol + 1), Wsum(b, SOL(b, d), d))
     [] m \in {"left-word", "left-small-word", "left-alnum-word"} ->
                       LET f == FlavorOf(m) IN
-                      IF NoWordLeft(f, b, d) THEN Any(b) ELSE {PrevStart(f, b, d - 1)}
+                      IF NoWordLeft(f, b, d) THEN AnyDot(b) ELSE {PrevStart(f, b, d - 1)}
     [] m \in {"right-word", "right-small-word", "right-alnum-word"} ->
                       LET f == FlavorOf(m) IN
-                      IF NoWordRight(f, b, d) THEN Any(b) ELSE {NextStart(f, b, d + 1)}
+                      IF NoWordRight(f, b, d) THEN AnyDot(b) ELSE {NextStart(f, b, d + 1)}
 
 UnspecifiedMove(m, b, d) ==
   \/ m \in {"left-word", "left-small-word", "left-alnum-word"} /\ NoWordLeft(FlavorOf(m), b, d)
